@@ -116,13 +116,18 @@ def _bad_leaves(prog, A, f, P, e, depth):
     return bad
 
 
+def _san(n):
+    import re
+    return re.sub(r'\.i(\d*)$', r'_i\1', n)
+
+
 def _reaching_local_store(f, P, name, e):
     # find the load instruction(s) of this alloca inside e
     loads = []
 
     def walk(x):
         if isinstance(x, tuple):
-            if x and x[0] == 'load' and x[1][1] == ('A', name) and not x[1][2]:
+            if x and x[0] == 'load' and x[1][1][0] == 'A' and _san(x[1][1][1]) == name and not x[1][2]:
                 loads.append(x[2])
             for y in x:
                 if isinstance(y, tuple):
@@ -133,10 +138,10 @@ def _reaching_local_store(f, P, name, e):
     ld = loads[0]
     prev = None
     for i in ld.block.insns[:ld.idx]:
-        if i.op == 'store' and P.addr(i.ops[1])[1] == ('A', name):
+        if i.op == 'store' and P.addr(i.ops[1])[1][0] == 'A' and _san(P.addr(i.ops[1])[1][1]) == name:
             prev = i
-        elif i.op == 'call' and any(P.expr(o)[0] == 'addr' and P.expr(o)[1] == ('A', name) for o in i.ops
-                                    if o[0] in ('reg',)):
+        elif i.op == 'call' and any(P.expr(o)[0] == 'addr' and P.expr(o)[1][0] == 'A' and _san(P.expr(o)[1][1]) == name
+                                    for o in i.ops if o[0] in ('reg',)):
             prev = None
     return prev
 
